@@ -66,6 +66,10 @@ type Canonicalizer struct {
 
 	loopInfo *loop.LoopInfo
 
+	// subject is the function being canonicalized; it lets function references that point
+	// into the subject's own nest be rendered without the (renameable) name of that nest.
+	subject *ssa.Function
+
 	registerMap          map[ssa.Value]string
 	blockMap             map[*ssa.BasicBlock]string
 	regCounter           int
@@ -114,6 +118,7 @@ func (c *Canonicalizer) CanonicalizeFunction(fn *ssa.Function) string {
 	}
 
 	c.resetScratch()
+	c.subject = fn
 	estimatedSize := 0
 	for _, block := range fn.Blocks {
 		estimatedSize += len(block.Instrs) * 50
@@ -550,6 +555,7 @@ func (c *Canonicalizer) resetScratch() {
 	c.regCounter = 0
 	c.output.Reset()
 	c.loopInfo = nil
+	c.subject = nil
 
 	if c.virtualInstrs != nil {
 		for k := range c.virtualInstrs {
@@ -1224,12 +1230,51 @@ func (c *Canonicalizer) NormalizeOperand(v ssa.Value, context ssa.Instruction) s
 		if name, exists := c.registerMap[v]; exists {
 			return name
 		}
-		// fn.String() identifies a function by package path, receiver and name; the bare name
-		// would make crypto/rand.Read and math/rand.Read indistinguishable.
-		return fmt.Sprintf("<func_ref:%s:%s>", operand.String(), sanitizeType(operand.Signature))
+		return fmt.Sprintf("<func_ref:%s:%s>", c.funcRefName(operand), sanitizeType(operand.Signature))
 	default:
 		return c.normalizeValue(v)
 	}
+}
+
+// outermostFunction walks up the closure nest.
+func outermostFunction(fn *ssa.Function) *ssa.Function {
+	for fn != nil && fn.Parent() != nil {
+		fn = fn.Parent()
+	}
+	return fn
+}
+
+// nestPath locates fn inside the nest rooted at root by child indices ("" for the root itself).
+func nestPath(fn, root *ssa.Function) string {
+	var parts []string
+	for fn != nil && fn != root {
+		parent := fn.Parent()
+		idx := -1
+		if parent != nil {
+			for i, a := range parent.AnonFuncs {
+				if a == fn {
+					idx = i
+					break
+				}
+			}
+		}
+		parts = append([]string{strconv.Itoa(idx)}, parts...)
+		fn = parent
+	}
+	return strings.Join(parts, ".")
+}
+
+// funcRefName names a referenced function. References into the subject's own nest (recursion,
+// closures, sibling closures) are positional, so renaming the subject does not change its IR.
+// Every other function is identified by fn.String(), i.e. package path, receiver and name; the
+// bare name would make crypto/rand.Read and math/rand.Read indistinguishable.
+func (c *Canonicalizer) funcRefName(fn *ssa.Function) string {
+	if c.subject != nil {
+		if root := outermostFunction(c.subject); root != nil && outermostFunction(fn) == root {
+			return "<nest:" + nestPath(fn, root) + ">"
+		}
+	}
+	return fn.String()
 }
 
 func packageQualifier(p *types.Package) string {
